@@ -495,3 +495,52 @@ def walk_bounds(F):
     if n < 2:
         raise CheckError("expected the two function walks (resolver, code section), found %d" % n)
     return r
+
+
+def func_level_first(F):
+    """R-FUNC-LEVEL-FIRST (C17): inside the resolver's per-instruction loop the function-level probes are handled for
+    *every* visited instruction — before anything that can `continue` (block-alt deletion) — and entry before exit (at an
+    index where both apply, e.g. an empty body or a leading `return`, the entry code and the wrapper `block` must come
+    before the exit code)."""
+    r = RuleResult("R-FUNC-LEVEL-FIRST",
+                   "in resolve_special_instrumentation's instruction loop resolve_function_entry and resolve_function_exit run on every iteration (guarded only by their own lists being present/non-empty, with no earlier `continue`), entry before exit")
+    rs = F.one_fn(name="resolve_special_instrumentation", self_adt="Module")
+    r.analysed.append(rs["path"])
+    ent = [c for c in walk(rs["body"]) if c.get("k") == "Call" and (c.get("callee") or "").endswith("::resolve_function_entry")]
+    ext = [c for c in walk(rs["body"]) if c.get("k") == "Call" and (c.get("callee") or "").endswith("::resolve_function_exit")]
+    if len(ent) != 1 or len(ext) != 1:
+        raise CheckError("resolve_special_instrumentation: expected one call each of resolve_function_entry/exit, found %d/%d" % (len(ent), len(ext)))
+    E, X = ent[0], ext[0]
+    # innermost for-loop body containing both
+    scope = None
+    for anc, _ in reversed(path_to(rs["body"], E) or []):
+        if isinstance(anc, dict) and anc.get("k") == "Match" and anc.get("src") == "ForLoopDesugar" and any(y is X for y in walk(anc)):
+            scope = next((a2["body"] for a2 in anc["arms"] if any(y is E for y in walk(a2["body"]))), None)
+            break
+    if scope is None:
+        raise CheckError("resolve_special_instrumentation: entry/exit resolution not inside one instruction loop")
+    for label, C in (("entry", E), ("exit", X)):
+        conds = conditional_ancestors(scope, C) or []
+        foreign = []
+        for c in conds:
+            cd = peel(c.get("cond") or {})
+            own = c.get("k") == "If" and (cd.get("k") == "LetExpr" or any(x.get("k") == "MethodCall" and x["method"] == "is_empty" for x in walk(c.get("cond") or {})))
+            if not own:
+                foreign.append(c)
+        early = None
+        for x in walk(scope):
+            if x.get("k") in ("Continue", "Break") and x.get("sp") and sp_before(x, C):
+                inner = [a for a, _ in (path_to(scope, x) or []) if isinstance(a, dict) and a.get("k") in ("Loop", "Closure") and a is not scope]
+                if not inner:
+                    early = x
+        ok = not foreign and early is None
+        r.ob(ok, {"probe": label, "handled_on_every_instruction": ok})
+        if not ok:
+            r.violate("%s | %s skipped" % (rs["path"], label), F.loc(rs, C),
+                      "function-%s resolution runs %s: for instructions skipped that way (e.g. those removed by a block alt, including instruction 0) the %s probe is never placed" % (
+                          label, ("only under a foreign condition at line %s" % foreign[0]["sp"][0]) if foreign else ("after a `continue` at line %s" % early["sp"][0]), label))
+    ok = sp_before(E, X)
+    r.ob(ok, {"entry_before_exit": ok})
+    if not ok:
+        r.violate("%s | exit before entry" % rs["path"], F.loc(rs, X), "function-exit resolution runs before function-entry resolution: where both inject at the same index the exit code (and the wrapper's `end`) precede the entry code and the wrapper `block`")
+    return r
